@@ -102,6 +102,26 @@ func runC17(c *Ctx) {
 		if perr != "" {
 			return
 		}
+		// one renderer value whose predicate is replaced between calls: every call must obey the predicate it is made with
+		if idx%2 == 0 {
+			shared := &cm.HTMLRenderer{ReferenceMap: res.refs}
+			for pass := 0; pass < 2; pass++ {
+				for k := range c17Filters {
+					f := c17Filters[k]
+					if pass == 1 {
+						f = c17Filters[len(c17Filters)-1-k]
+					}
+					shared.FilterTag = filterFunc(f)
+					var buf bytes.Buffer
+					if p := safely(func() { shared.Render(&buf, res.roots) }); p != "" {
+						continue
+					}
+					if want, perr := render(res.roots, res.refs, renderCfg{filter: f}); perr == "" && !bytes.Equal(want, buf.Bytes()) {
+						c.report("filtering-depends-on-renderer-history", doc, fam, fmt.Sprintf("predicate %s on a renderer used with other predicates before: %q, on a fresh renderer: %q", f, buf.Bytes(), want), nil, nil)
+					}
+				}
+			}
+		}
 		for _, f := range c17Filters {
 			f := f
 			out, perr := render(res.roots, res.refs, renderCfg{filter: f})
